@@ -9,7 +9,7 @@ index by exactly one and yields the element at the *old* index, None paths leave
 scalar arm yields exactly once."""
 from ..facts import show, site, unwrap, walk
 from ..symx import all_calls, closure_paths, cshow, paths_of, simp, tshow
-from ..terms import display_norm, is_call, mentions, opt_polarity, same, subterms
+from ..terms import display_norm, is_call, is_map_call, mentions, opt_polarity, same, subterms
 
 ADD = "ipp::attribute::IppAttributes::add"
 GROUPS_OF = "ipp::attribute::IppAttributes::groups_of"
@@ -81,7 +81,7 @@ def check_add(run, F, prefix="R-CONTAINER"):
                    key="%s|%s|no-search" % (prefix, ADD))
             continue
         found[hit] += 1
-        inserts = [t for t in calls if t[1].startswith("std::collections::HashMap::<K, V, S, A>::")]
+        inserts = [t for t in calls if is_map_call(t[1])]
         ins = [t for t in inserts if t[1].endswith("::insert")]
         bad = [t for t in inserts if not t[1].endswith("::insert")]
         run.ob(prefix, "add: attribute stored with HashMap::insert (replace by name)", len(ins) == 1 and not bad,
@@ -188,7 +188,12 @@ def check(run, views, tier):
             run.ob("R-CONTAINER", "group list is a Vec", gt.startswith("std::vec::Vec<ipp::attribute::IppAttributeGroup"), gt, key="R-CONTAINER|groups-type")
         check_ordered(run, F)
         from .. import codecrules as _cr
-        _cr.r_mapkey(run, F)
+        nmk = _cr.r_mapkey(run, F)
+        run.floor("R-MAPKEY", nmk, 2, "inserts into attribute maps (parser, add)")
+        items = F.impl_items("ipp::value::IppValueIterator", "std::iter::Iterator")
+        run.ob("R-CONTAINER", "impl Iterator for IppValueIterator defines next (and at most size_hint)", items is not None and set(items) <= {"Item", "next", "size_hint"} and "next" in items,
+               "impl defines %s: an overridden adaptor (nth, skip, fold, count, last ...) is a second traversal that can disagree with next()" % items,
+               key="R-CONTAINER|iterator-impl-items")
         # ---- the value iterator ------------------------------------------------------------
         ib = F.body(INTO_ITER)
         if ib is None:
